@@ -173,7 +173,45 @@ def design_multi(spec):
     return top, ins, outs, "\n".join(texts)
 
 
-BUILDERS = {"expr": design_expr, "stmts": design_stmts, "memory": design_memory, "multi": design_multi}
+def design_split(spec):
+    """One signal whose bits are driven from different places: sync + comb, two domains, two modules."""
+    r = random.Random(spec["seed"])
+    w = r.randint(3, 8)
+    k = r.randint(1, w - 1)
+    init = r.randint(1, (1 << w) - 1)
+    signed_ = r.random() < 0.3
+    from amaranth.hdl import Shape
+    if signed_ and init >= (1 << (w - 1)):
+        init -= 1 << w
+    o = Signal(Shape(w, signed_), name="o", init=init)
+    i = Signal(w, name="i")
+    top = Module()
+    cd = ClockDomain("sync", async_reset=spec.get("async", False))
+    top.domains += cd
+    ins = [cd.clk, cd.rst, i]
+    kind = spec["kind"]
+    if kind == "sync+comb":
+        top.d.sync += o[:k].eq(i[:k] + 1)
+        top.d.comb += o[k:].eq(~i[k:])
+    elif kind == "comb+sync":
+        top.d.comb += o[:k].eq(i[:k] ^ 1)
+        top.d.sync += o[k:].eq(o[k:] + i[k:])
+    elif kind == "two-domains":
+        other = ClockDomain("other", clk_edge=spec.get("edge", "pos"))
+        top.domains += other
+        ins += [other.clk, other.rst]
+        top.d.sync += o[:k].eq(o[:k] + i[:k])
+        top.d.other += o[k:].eq(i[k:])
+    else:
+        child = Module()
+        child.d.sync += o[:k].eq(i[:k])
+        top.submodules.child = child
+        top.d.sync += o[k:].eq(o[k:] ^ i[k:])
+    return top, ins, [o], f"split register o: {'signed' if signed_ else 'unsigned'}({w}) init={init}, bits [:{k}] / [{k}:] driven as {kind}" + \
+        (" (async reset)" if spec.get("async") else "")
+
+
+BUILDERS = {"expr": design_expr, "stmts": design_stmts, "memory": design_memory, "multi": design_multi, "split": design_split}
 
 
 # ---------------------------------------------------------------------------------------- matching
@@ -393,7 +431,11 @@ def check_design(job):
                 continue
             info = R.wire_info[w]
             ia = info.attrs.get("\\init")
-            iv = (int(ia[2][::-1] or "0", 2) >> b) & 1 if ia and ia[0] == "const" else 0
+            if ia is None or ia[0] != "const":
+                # a flip-flop output without an init attribute powers up undefined; the simulator starts at init
+                bad.append(f"{w}[{b}] (register bit of {sig.name}) has no \\init attribute")
+                continue
+            iv = (int(ia[2][::-1] or "0", 2) >> b) & 1
             if ((sig.init >> sb) & 1) != iv:
                 bad.append(f"{w}[{b}] init {iv} vs signal {sig.name} init bit {(sig.init >> sb) & 1}")
     try:
@@ -704,6 +746,11 @@ def families(tier, seed):
             continue
         seen.add(t)
         jobs.append({"family": "expr", "prog": p, "child": r.random() < 0.3})
+    for p in G.const_operand_programs(4):
+        jobs.append({"family": "expr", "prog": p, "child": False})
+    for k in range(16 if tier == "quick" else 200):
+        jobs.append({"family": "split", "seed": seed * 100 + k, "kind": ["sync+comb", "comb+sync", "two-domains", "two-modules"][k % 4],
+                     "async": k % 8 >= 4, "edge": "neg" if k % 3 == 0 else "pos"})
     gen = G.RandomExprs(seed + 7, 4, 2)
     for i in range(100 if tier == "quick" else 3000):
         p = gen.gen(3 if i % 2 else 2)
